@@ -257,7 +257,7 @@ def main() -> int:
                     print("validate_symdb: %s step %d: %r vs %r" % (sc, i, x, y))
                 break
     shapes = res["symdb"]["__shapes__"]
-    with open(os.path.join(ROOT, "vf", "symdb_shapes.json"), "w") as f:
+    with open(os.environ.get("VF_SHAPES") or os.path.join(ROOT, "vf", "symdb_shapes.json"), "w") as f:
         json.dump(shapes, f, indent=0)
     print("validate_symdb: %d scenarios, %d steps compared, %d statement shapes, %d disagreements" % (len(SCENARIOS), steps, len(shapes), bad))
     return 0 if bad == 0 else 3
